@@ -576,6 +576,9 @@ impl<TokenIter: Iterator<Item = Result<Token>>> Parser<TokenIter> {
                                         let remained = DatumBody::Pair(pair).locate(location);
                                         let expanded_datum =
                                             transformer.transform(keyword, remained)?;
+                                        // release the borrow of the syntax environment: the expansion
+                                        // may itself define syntax in it
+                                        drop(transformer);
                                         Self::transform_to_statement(expanded_datum, syntax_env)?
                                     } else {
                                         Self::transform_procedure_call(
